@@ -118,7 +118,29 @@ def build(tier):
             'ctx.check_same_string("as-U-differs-from-declaring-the-field-with-type-U", &|| <T1 as TS>::decl(), &|| <T2 as TS>::decl());',
             'ctx.check_same_string("as-U-changes-the-dependencies", &|| format!("{:?}", { let mut d: Vec<String> = <A1 as TS>::dependencies().into_iter().map(|d| d.ts_name).collect(); d.sort(); d }), &|| format!("{:?}", { let mut d: Vec<String> = <A2 as TS>::dependencies().into_iter().map(|d| d.ts_name).collect(); d.sort(); d }));',
         ]
-        out.append(Case({"family": "as-other-type", "field": f, "as": u}, [a1, a2, e1, e2, t1, t2], body, extra_items=class_no_ts if "NoTs" in f else "", decl_types=[]))
+        types = [a1, a2, e1, e2, t1, t2]
+        # the same under every enum representation, alone and together with `inline` (tuples cannot be inlined)
+        k = 0
+        for rp, rattr in (("external", []), ("internal", ['#[ts(tag = "t")]']), ("adjacent", ['#[ts(tag = "t", content = "c")]']), ("untagged", ["#[ts(untagged)]"])):
+            for mod in ("", "inline"):
+                if (rp == "external" and not mod) or (mod and "(" in u):
+                    continue
+                k += 1
+                am = f'#[ts(as = "{u}", inline)]' if mod else f'#[ts(as = "{u}")]'
+                um = ["#[ts(inline)]"] if mod else []
+                x1 = TypeDef(f"X{k}", "enum", variants=[Variant("V", "tuple", [Field(f, None, [am])]), Variant("W", "named", [Field("bool", "keep"), Field(f, "x", [am])]), Variant("U", "unit")],
+                             attrs=list(rattr), derives=TS_ONLY, vals=False)
+                y1 = TypeDef(f"Y{k}", "enum", variants=[Variant("V", "tuple", [Field(uu, None, list(um))]), Variant("W", "named", [Field("bool", "keep"), Field(uu, "x", list(um))]), Variant("U", "unit")],
+                             attrs=list(rattr) + [f'#[ts(rename = "X{k}")]'], derives=TS_ONLY, vals=False)
+                types += [x1, y1]
+                body.append(f'ctx.check_same_string("as-U-differs-from-declaring-the-field-with-type-U", &|| <X{k} as TS>::decl(), &|| <Y{k} as TS>::decl());')
+                body.append('ctx.check_same_string("as-U-changes-the-dependencies", &|| format!("{:?}", { let mut d: Vec<String> = <X%d as TS>::dependencies().into_iter().map(|d| d.ts_name).collect(); d.sort(); d }), &|| format!("{:?}", { let mut d: Vec<String> = <Y%d as TS>::dependencies().into_iter().map(|d| d.ts_name).collect(); d.sort(); d }));' % (k, k))
+        if "(" not in u:
+            ai1 = st("AI1", [Field("bool", "keep"), Field(f, "f", [f'#[ts(as = "{u}", inline)]'])])
+            ai2 = st("AI2", [Field("bool", "keep"), Field(uu, "f", ["#[ts(inline)]"])], attrs=['#[ts(rename = "AI1")]'])
+            types += [ai1, ai2]
+            body.append('ctx.check_same_string("as-U-differs-from-declaring-the-field-with-type-U", &|| <AI1 as TS>::decl(), &|| <AI2 as TS>::decl());')
+        out.append(Case({"family": "as-other-type", "field": f, "as": u}, types, body, extra_items=class_no_ts if "NoTs" in f else "", decl_types=[]))
     # container- and variant-level `as`
     for u in ("St", "En", "Vec<St>", "Gp<St>", "Option<Ei>", "(i32, St)"):
         c = st("C", [Field("i32", "whatever")], attrs=[f'#[ts(as = "{u}")]'])
